@@ -56,7 +56,9 @@ def r1_r2_ingestion(repo, rep):
     if i.rule == 'R1/ingestion-ids':
       i.rule = 'R1/canonical-ids'
       rep.instances.append(i)
-    elif i.rule == 'R1/ingestion-pivot':
+    elif i.rule == 'R1/ingestion-pivot' or (i.rule == 'R1/ingestion' and i.status != 'discharged'):
+      # the canonical table must be the label-based pivot of the rows on every path: a second way of building it (a
+      # positional fast path) that the ingestion rules do not decide leaves row-order invariance undecided as well
       i.rule = 'R2/label-based'
       rep.instances.append(i)
   f = repo.cls('tbrmmdata.TBRMMData').methods['__init__']
@@ -135,6 +137,27 @@ def r3_order_taint(repo, rep):
                 rep.check(not sink or wrapped, 'R3/order-taint', '%s: iteration over the unordered %s does not fix an order' % (f.name, norm(x)[:30]), f.qualname,
                           txt[:120], 'an ordered sequence is produced by iterating the unordered set `%s` and used as geo order (%s): the result depends on hash order, i.e. on how IDs are spelled'
                           % (norm(x)[:40], txt[:80]), f.loc(sub))
+  # a long (geo, date, value) frame laid out as a matrix by position: column.to_numpy().reshape(n_dates, n_geos) is the
+  # geo-by-date table only if the rows are in (date, geo) or (geo, date) order, i.e. after a sort on BOTH keys
+  dcls_ = repo.cls('tbrmmdata.TBRMMData')
+  for f in dcls_.all_functions():
+    if repo.inlined_away(f):
+      continue
+    ctx = FuncCtx.of(f)
+    for node in ctx.g.nodes:
+      for e in ctx.node_exprs(node):
+        for sub in walk_no_nested(e):
+          if not (isinstance(sub, ast.Call) and isinstance(sub.func, ast.Attribute) and sub.func.attr == 'reshape'):
+            continue
+          recv = norm(ctx.rd.expand(node, sub.func.value, depth=10, keep=tuple(f.params))[0])
+          if not re.search(r"\[(response_column|'response'|self\.\w*response\w*)\]", recv):
+            continue
+          n += 1
+          keys = re.findall(r"sort_values\(([^)]*)\)", recv)
+          both = any(("'geo'" in k_ and "'date'" in k_) for k_ in keys)
+          rep.check(both, 'R3/order-taint', '%s: the response column is reshaped into a matrix only after a sort on both geo and date' % f.name, f.qualname, norm(sub)[:120],
+                    'the response values are laid out as a geo-by-date matrix by position (`%s`) without a sort on both keys (sorted by: %s): which value lands in which cell depends on the order of the input rows'
+                    % (norm(sub)[:80], '; '.join(keys) or 'nothing'), f.loc(sub))
   ga = repo.cls(MM).getters.get('geo_assignments')
   ctx = FuncCtx.of(ga)
   for node in ctx.g.nodes:
@@ -253,6 +276,9 @@ def r5_dimensions(repo, rep):
                         (ln == 'math.isclose' and atol is not None and not (au.const(atol)[0] and au.const(atol)[1] == 0))
               scaled = any(isinstance(x, int) and x != 0 or (x is not None and x not in (0, dimsmod.POLY)) for x in (da, db))
               unknown = da is None and db is None
+              if has_abs and not scaled and not unknown and (da is None or db is None):
+                rep.undecided('R5/dimension', '%s: %s' % (f.name, norm(sub)[:50]), 'an absolute tolerance is applied to a quantity whose unit is not inferred (%s, %s)' % (da, db), f.loc(sub))
+                continue
               rep.check(not (has_abs and (scaled or unknown)), 'R5/dimension', '%s: tolerance test %s has no absolute tolerance on scaled quantities' % (f.name, norm(sub)[:40]),
                         f.qualname, norm(sub)[:120],
                         'the tolerance test `%s` applies an absolute tolerance (default atol=1e-8) to a response-scaled quantity (units %s, %s): for small response scales everything counts as equal'
